@@ -405,7 +405,7 @@ fn gen_cases(cfg: &Cfg, rep: &mut Report) -> (Vec<CaseDesc>, Vec<CaseDesc>) {
     // 1. random documents x random option vectors
     let n_random = match (cfg.tier_thorough, dev) {
         (true, false) => 3_000_000,
-        (true, true) => 600_000,
+        (true, true) => 300_000,
         (false, false) => 250_000,
         (false, true) => 60_000,
     };
@@ -474,11 +474,12 @@ fn gen_cases(cfg: &Cfg, rep: &mut Report) -> (Vec<CaseDesc>, Vec<CaseDesc>) {
     // 3. deep nesting / long runs, several sizes, with and without footnotes
     let sizes: Vec<usize> = match (cfg.tier_thorough, dev) {
         (true, false) => vec![1_000, 30_000, 200_000, 1_000_000],
-        (true, true) => vec![1_000, 30_000, 200_000],
+        (true, true) => vec![1_000, 30_000, 100_000],
         (false, false) => vec![1_000, 20_000, 100_000],
         (false, true) => vec![1_000, 20_000],
     };
-    let variants = opts_variants(&mut r, if cfg.tier_thorough { 4 } else { 1 });
+    // (the dev profile is 10-30 times slower: fewer random option vectors there)
+    let variants = opts_variants(&mut r, if cfg.tier_thorough && !dev { 4 } else { 1 });
     for &n in &sizes {
         for (spec, class) in deep_specs(n, if cfg.tier_thorough && !dev { 200_000 } else { 8_000 }) {
             for o in &variants {
@@ -517,7 +518,7 @@ fn gen_cases(cfg: &Cfg, rep: &mut Report) -> (Vec<CaseDesc>, Vec<CaseDesc>) {
     }
     // tables that reach the auto-completion cap: the rows after it are completed no further, and every
     // renderer walks the alignments of a table whose rows stopped short
-    for (cols, rows) in [(2000usize, 260usize), (600, 1000)] {
+    for (cols, rows) in if dev { vec![(2000usize, 260usize)] } else { vec![(2000usize, 260usize), (600, 1000)] } {
         let spec = spec_of(&[(b"|a", cols), (b"|\n", 1), (b"|-", cols), (b"|\n", 1), (b"|x\n", rows), (b"\nafter\n", 1)]);
         for o in [Opts::all_extensions(), Opts::gfm()] {
             big.push(CaseDesc { opts: o, spec: spec.clone(), class: "table-at-autocompletion-cap", stack_kib: None });
@@ -526,7 +527,7 @@ fn gen_cases(cfg: &Cfg, rep: &mut Report) -> (Vec<CaseDesc>, Vec<CaseDesc>) {
     // inlines nested far deeper than any recursion over the tree can follow, inside a heading whose text is
     // collected for its anchor (header_ids) and inside a link / image whose text is collected for alt text
     {
-        let n = if dev { 100_000usize } else { 400_000 };
+        let n = if dev { 40_000usize } else { 400_000 };
         let mut o = Opts::all_extensions();
         o.header_ids = Some("h-".to_string());
         for (pre, open, close) in [("# ", "*a ", " b*"), ("# ", "[a ", " b](u)"), ("![", "*a ", " b*](u)\n\n# x")] {
